@@ -27,7 +27,8 @@ RULE = ("(a) PolynomialCalibrator / SplineCalibrator.calibrate over Hypothesis-g
         "raw_value = the uncalibrated value; enumeration = label of the raw value or ValueError; boolean = bool(raw); "
         "both ignore calibrators. Non-trivial: query on a knot/end point or outside the range; >= 2 context "
         "calibrators with >= 1 match; enumeration/boolean with a calibrator attached or a falsy raw value.")
-ASSUMPTIONS = ["queries and coefficients are finite and all terms stay within 1e300 (float overflow is not judged)",
+ASSUMPTIONS = ["coefficients are finite and all terms stay within 1e300 (float overflow is not judged); non-finite queries "
+               "are judged only for splines without extrapolation (they lie outside every closed range -> CalibrationError)",
                "a Comparison inside a context calibrator may reference the parameter being decoded only with "
                "useCalibratedValue=false (the documented own-raw-value case)"]
 EXHAUSTIVE = {"quick": False, "thorough": False}
@@ -60,6 +61,7 @@ def queries_for(cal, extra):
         span = (xs[-1] - xs[0]) or 1.0
         qs += [("outside", xs[0] - 1), ("outside", xs[-1] + 1), ("outside", xs[0] - 10 * span),
                ("outside", xs[-1] + 10 * span), ("outside", int(xs[-1]) + 2), ("outside", int(xs[0]) - 2)]
+        qs += [("non-finite", float("nan")), ("non-finite", float("inf")), ("non-finite", float("-inf"))]
     for q in extra:
         qs.append(("drawn", q))
     return qs
@@ -82,7 +84,7 @@ def check_calibrate(ctx, case):
         ctx.count()
         name = cal["t"] + (f"/{cal['order']}" + ("/extrapolate" if cal["extrapolate"] else "") if cal["t"] == "spline" else "")
         ctx.cls(f"calibrate {name}: {label}")
-        if label in ("knot", "end point", "outside", "adjacent to knot"):
+        if label in ("knot", "end point", "outside", "adjacent to knot", "non-finite"):
             ctx.nontrivial((cal, q.hex() if isinstance(q, float) else q))
         sub = dict(case, only=(q.hex() if isinstance(q, float) else q))
         try:
